@@ -47,7 +47,7 @@ func main() {
 
 func cases(tier string) int {
 	if tier == "thorough" {
-		return 20000
+		return 60000
 	}
 	return 4000
 }
